@@ -2,6 +2,7 @@ SPECIFICATION Spec
 CONSTANTS
   ClosesPipeOnBuildError = TRUE
   ClosesFilesOnParamsError = TRUE
+  CopyMarksEndSeen = FALSE
   CancelsBeforeClose = FALSE
   ClosesFilesOnFieldError = TRUE
   ZeroLenReadSetsEOF = FALSE
@@ -9,7 +10,7 @@ CONSTANTS
   RespLen = 2
   PNames = {"none", "buffer", "reader", "mp10", "mp01", "mp11", "mp02", "mp12"}
   Auths = {"none", "ok", "read"}
-  Readers = {"all", "p0", "p1"}
+  Readers = {"all", "p0", "p1", "w1"}
   Cancels = {"none", "auth", "send", "read"}
   P2Names = {"reader", "mp11", "mp02"}
   Auths2 = {"read"}
